@@ -49,6 +49,18 @@ def sh(cmd, cwd=None, env=None, timeout=None, logfile=None):
     return rc, out, time.time() - t0
 
 
+def reap_orphans():
+    """SMT back ends (z3/cvc5) of a timed-out CBMC survive as orphans (ppid 1) and burn cores."""
+    try:
+        out = subprocess.run(["ps", "-eo", "pid,ppid,args"], stdout=subprocess.PIPE, text=True).stdout
+        for line in out.splitlines():
+            parts = line.split(None, 2)
+            if len(parts) == 3 and parts[1] == "1" and "smt2_dec_problem" in parts[2]:
+                subprocess.run(["kill", "-9", parts[0]], stderr=subprocess.DEVNULL)
+    except Exception:
+        pass
+
+
 # ---------------------------------------------------------------- harness inventory
 
 def scan_harnesses(crate_key, prefix):
@@ -116,7 +128,9 @@ def prepare_xrepo():
             continue
         for r in rules:
             n = src.count(r["find"])
-            if n != 1:
+            if r.get("all") and n >= 1:
+                pass
+            elif n != 1:
                 problems.append("transform anchor lost in %s (%d matches): %r" % (f, n, r["find"][:60]))
                 continue
             src = src.replace(r["find"], r["replace"])
@@ -134,6 +148,39 @@ def repo_root(part):
     if part.get("transform"):
         return prepare_xrepo()[0]
     return REPO
+
+
+def parse_kani_json(jpath, out):
+    try:
+        data = json.load(open(jpath))
+    except Exception as ex:
+        out["undecided"].append("unreadable kani json: %s" % ex)
+        return
+    out["tools"] = data.get("tools", {})
+    stats = {c["harness_id"]: (c.get("cbmc_stats") or {}) for c in data.get("cbmc", []) if "harness_id" in c}
+    errd = {c["harness_id"]: c for c in data.get("error_details", [])}
+    for r in data.get("verification_results", {}).get("results", []):
+        hid = r["harness_id"]
+        name = hid.split("::")[-1]
+        checks = r.get("checks", [])
+        failed = [c for c in checks if c.get("status") == "Failure"]
+        res = {
+            "id": hid, "status": r.get("status"), "duration_s": r.get("duration_ms", 0) / 1000.0,
+            "n_checks": len(checks),
+            "n_ok": sum(1 for c in checks if c.get("status") == "Success"),
+            "n_unreachable": sum(1 for c in checks if c.get("status") == "Unreachable"),
+            "n_undetermined": sum(1 for c in checks if c.get("status") == "Undetermined"),
+            "harness_asserts": sum(1 for c in checks if c.get("category") == "assertion" and
+                                   str(c.get("location", {}).get("file", "")).startswith(KANI_DIR)),
+            "covers": [c for c in checks if c.get("category") == "cover"],
+            "failed": [{"description": c.get("description"), "category": c.get("category"),
+                        "function": c.get("function"),
+                        "location": "%s:%s" % (c.get("location", {}).get("file"), c.get("location", {}).get("line"))}
+                       for c in failed],
+            "solver_s": stats.get(hid, {}).get("runtime_decision_procedure_s"),
+            "error": errd.get(hid, {}),
+        }
+        out["results"][name] = res
 
 
 def run_kani(pid, part, tier, jobs):
@@ -169,7 +216,7 @@ def run_kani(pid, part, tier, jobs):
     cmd = ["cargo", "kani", "--target-dir", os.path.join(BUILD, "kani-x" if part.get("transform") else "kani")] + KANI_FLAGS
     if part.get("c_ffi"):
         cmd += ["-Z", "c-ffi", "--c-lib", os.path.join(KANI_DIR, "clock.c")]
-    for f in part.get("features", []):
+    for f in part.get("features", []) + (["verif-xrepo"] if part.get("transform") else []):
         cmd += ["--features", f]
     if part.get("no_default_features"):
         cmd += ["--no-default-features"]
@@ -186,43 +233,51 @@ def run_kani(pid, part, tier, jobs):
     rc, text, dt = sh(cmd, cwd=os.path.join(root, crate_dir), timeout=total_to, logfile=lpath)
     out["wall_s"] = dt
     out["log"] = lpath
+    reap_orphans()
     if not os.path.exists(jpath):
         # compile error / ICE / timeout before any result
         tail = "\n".join(text.splitlines()[-40:])
         errs = [l for l in text.splitlines() if l.startswith("error")]
         out["undecided"].append("kani produced no result file (rc=%s): %s" % (rc, "; ".join(errs[:5]) or tail[-600:]))
         return out
-    try:
-        data = json.load(open(jpath))
-    except Exception as ex:
-        out["undecided"].append("unreadable kani json: %s" % ex)
-        return out
-    out["tools"] = data.get("tools", {})
-    stats = {c["harness_id"]: (c.get("cbmc_stats") or {}) for c in data.get("cbmc", []) if "harness_id" in c}
-    errd = {c["harness_id"]: c for c in data.get("error_details", [])}
-    for r in data.get("verification_results", {}).get("results", []):
-        hid = r["harness_id"]
-        name = hid.split("::")[-1]
-        checks = r.get("checks", [])
-        failed = [c for c in checks if c.get("status") == "Failure"]
-        res = {
-            "id": hid, "status": r.get("status"), "duration_s": r.get("duration_ms", 0) / 1000.0,
-            "n_checks": len(checks),
-            "n_ok": sum(1 for c in checks if c.get("status") == "Success"),
-            "n_unreachable": sum(1 for c in checks if c.get("status") == "Unreachable"),
-            "n_undetermined": sum(1 for c in checks if c.get("status") == "Undetermined"),
-            "harness_asserts": sum(1 for c in checks if c.get("category") == "assertion" and
-                                   str(c.get("location", {}).get("file", "")).startswith(KANI_DIR)),
-            "covers": [c for c in checks if c.get("category") == "cover"],
-            "failed": [{"description": c.get("description"), "category": c.get("category"),
-                        "function": c.get("function"),
-                        "location": "%s:%s" % (c.get("location", {}).get("file"), c.get("location", {}).get("line"))}
-                       for c in failed],
-            "solver_s": stats.get(hid, {}).get("runtime_decision_procedure_s"),
-            "error": errd.get(hid, {}),
-        }
-        out["results"][name] = res
+    parse_kani_json(jpath, out)
     # harnesses that timed out do not always show up in results
+    return out
+
+
+def run_kani_extract(pid, unit, tier, jobs):
+    """K-extract: items copied mechanically from /repo into one generated file, verified with `kani file.rs`."""
+    import extract
+    outdir = os.path.join(BUILD, "kextract")
+    os.makedirs(outdir, exist_ok=True)
+    spec = os.path.join(VERIF, "kextract", unit + ".kspec")
+    text, _c, report = extract.build(spec, REPO)
+    f = os.path.join(outdir, unit + ".rs")
+    open(f, "w").write(text)
+    kinds = ALL_KINDS if tier == "thorough" else QUICK_KINDS
+    expected = {}
+    for m in re.finditer(r"fn\s+(c\d{2,3}_(?:p|b|tp|tb|canary)_\w+)\s*\(", text):
+        km = KIND_RE.match(m.group(1))
+        if km and km.group(2) in kinds:
+            expected[m.group(1)] = (km.group(2), spec)
+    out = {"expected": expected, "results": {}, "undecided": [], "crate": "extract:" + unit, "wall_s": 0.0,
+           "cmd": "", "tools": {}, "transform": ["extracted %s %s from %s (sha %s)" % (i.get("kind", "fn"), i["name"], i["file"], i.get("sha256", i.get("body_sha256"))) for i in report["items"] + report["functions"]]}
+    os.makedirs(os.path.join(BUILD, "out"), exist_ok=True)
+    jpath = os.path.join(BUILD, "out", "%s-x-%s-%d.json" % (pid, unit, os.getpid()))
+    if os.path.exists(jpath):
+        os.remove(jpath)
+    cmd = ["kani", f] + KANI_FLAGS + ["-j", str(jobs), "--output-format", "terse", "--export-json", jpath,
+                                      "--harness-timeout", "300s"]
+    for n in expected:
+        cmd += ["--harness", n]
+    out["cmd"] = "cd %s && %s" % (outdir, " ".join(cmd))
+    rc, textout, dt = sh(cmd, cwd=outdir, timeout=1800, logfile=jpath.replace(".json", ".log"))
+    out["wall_s"] = dt
+    if not os.path.exists(jpath):
+        errs = [l for l in textout.splitlines() if l.startswith("error")]
+        out["undecided"].append("kani produced no result file (rc=%s): %s" % (rc, "; ".join(errs[:5]) or textout[-600:]))
+        return out
+    parse_kani_json(jpath, out)
     return out
 
 
@@ -281,7 +336,7 @@ def native_playback(part, harness_file, test_text, test_name):
     d = make_replay_dir({module_file_key(harness_file): test_text})
     crate_key = part.get("crate_key", part["crate_dir"].replace("-", "_"))
     cmd = ["cargo", "kani", "playback", "-Z", "concrete-playback"] + KANI_FLAGS
-    for f in part.get("features", []):
+    for f in part.get("features", []) + (["verif-xrepo"] if part.get("transform") else []):
         cmd += ["--features", f]
     cmd += ["--", test_name, "--exact"] if False else ["--", test_name]
     rc, text, dt = sh(cmd, cwd=os.path.join(repo_root(part), part["crate_dir"]),
@@ -300,15 +355,59 @@ def native_playback(part, harness_file, test_text, test_name):
     return "not-run", text[-3000:]
 
 
+def build_replay_extract(pid, part, name, hid, hfile, res, reason):
+    """Counterexample + native replay for a harness of a generated (extracted) single-file unit."""
+    os.makedirs(REPLAYS, exist_ok=True)
+    rpath = os.path.join(REPLAYS, "%s-%s.rs" % (pid, name))
+    unit = part["extract_unit"]
+    outdir = os.path.join(BUILD, "kextract")
+    f = os.path.join(outdir, unit + ".rs")
+    cmd = ["kani", f] + KANI_FLAGS + ["--harness", name, "-Z", "concrete-playback", "--concrete-playback=print",
+                                      "--output-format", "terse", "--harness-timeout", "600s"]
+    rc, text, dt = sh(cmd, cwd=outdir, timeout=1200)
+    tests = [t for t in re.findall(r"```\n(.*?)```", text, re.S) if "concrete_playback_run" in t]
+    hdr = ["// replay for property %s" % pid,
+           "// refuted obligation (Kani harness on mechanically extracted functions, unit %s): %s" % (unit, name),
+           "// failed checks: %s" % reason.replace("\n", " "),
+           "//meta " + json.dumps({"property": pid, "extract_unit": unit, "harness": name})]
+    if not tests:
+        open(rpath, "w").write("\n".join(hdr) + "\n/* no concrete input; verifier output:\n" + text[-4000:].replace("*/", "* /") + "\n*/\n")
+        return rpath, False, "no concrete input from verifier"
+    status, detail = extract_playback(unit, tests[0])
+    hdr.append("// native replay (extracted text compiled natively): %s" % status)
+    open(rpath, "w").write("\n".join(hdr) + "\n" + tests[0] + "\n/* native run output:\n" + detail.replace("*/", "* /") + "\n*/\n")
+    return rpath, status == "reproduced", status
+
+
+def extract_playback(unit, test_text):
+    import extract
+    outdir = os.path.join(BUILD, "kextract")
+    os.makedirs(outdir, exist_ok=True)
+    text, _c, _r = extract.build(os.path.join(VERIF, "kextract", unit + ".kspec"), REPO)
+    f = os.path.join(outdir, unit + "_playback.rs")
+    open(f, "w").write(text + "\n" + test_text + "\n")
+    tn = re.search(r"fn (kani_concrete_playback_\w+)", test_text).group(1)
+    rc, out, dt = sh(["kani", "playback", "-Z", "concrete-playback", f, "--", tn], cwd=outdir, timeout=900)
+    m = re.search(r"test result: (\w+)\. (\d+) passed; (\d+) failed", out)
+    if not m:
+        return "not-run", out[-2000:]
+    if int(m.group(3)) > 0:
+        pm = re.findall(r"panicked at [^\n]*\n[^\n]*", out)
+        return "reproduced", ("\n".join(pm[:3]) or out[-1500:])
+    return ("passed-natively" if int(m.group(2)) > 0 else "not-run"), out[-1500:]
+
+
 def build_replay(pid, part, name, hid, hfile, res, reason):
     """Obtain a concrete counterexample for a refuted harness and replay it natively."""
+    if "extract_unit" in part:
+        return build_replay_extract(pid, part, name, hid, hfile, res, reason)
     os.makedirs(REPLAYS, exist_ok=True)
     rpath = os.path.join(REPLAYS, "%s-%s.rs" % (pid, name))
     crate_key = part.get("crate_key", part["crate_dir"].replace("-", "_"))
     cmd = ["cargo", "kani", "--target-dir", os.path.join(BUILD, "kani-x" if part.get("transform") else "kani")] + KANI_FLAGS
     if part.get("c_ffi"):
         cmd += ["-Z", "c-ffi", "--c-lib", os.path.join(KANI_DIR, "clock.c")]
-    for f in part.get("features", []):
+    for f in part.get("features", []) + (["verif-xrepo"] if part.get("transform") else []):
         cmd += ["--features", f]
     cmd += ["--harness", hid, "--exact", "-Z", "concrete-playback", "--concrete-playback=print",
             "--output-format", "terse", "--harness-timeout", "900s"]
@@ -344,6 +443,14 @@ def replay_cmd(path):
         log(text[:3000])
         return 1
     meta = json.loads(m.group(1))
+    if "extract_unit" in meta:
+        t = re.search(r"(#\[test\].*?\n}\n)", text, re.S)
+        if not t:
+            log("no concrete test in replay file (no-failing-input-found); obligation: %s" % meta["harness"])
+            return 1
+        status, detail = extract_playback(meta["extract_unit"], t.group(1))
+        log("native replay of %s: %s\n%s" % (meta["harness"], status, detail))
+        return 1 if status == "reproduced" else 0
     t = re.search(r"(#\[test\].*?\n}\n)", text, re.S)
     if not t:
         log("no concrete test in replay file (no-failing-input-found); obligation: %s" % meta["harness"])
@@ -447,6 +554,36 @@ def main(argv):
                     known_hits.append((name, kn[0]["what"]))
                 else:
                     violations.append((part, name, res["id"], hfile, res, reason))
+            elif verdict in ("undecided", "canary-passed"):
+                undecided.append("[%s] %s" % (name, reason))
+
+    for unit in spec.get("kani_extract", []):
+        try:
+            r = run_kani_extract(pid, unit, tier, jobs)
+        except Exception as ex:
+            undecided.append("[kani-extract %s] %s" % (unit, ex))
+            continue
+        cmds.append(r["cmd"])
+        transforms.extend(r.get("transform", []))
+        tools.update({k: v for k, v in r.get("tools", {}).items() if k in ("kani", "cbmc", "rustc")})
+        for u in r["undecided"]:
+            undecided.append("[kani-extract %s] %s" % (unit, u))
+        for name, (kind, hfile) in sorted(r["expected"].items()):
+            res = r["results"].get(name)
+            verdict, reason = classify(name, kind, res)
+            ob = {"name": name, "backend": "kani/cbmc (extracted)", "kind": kind, "verdict": verdict, "reason": reason,
+                  "n_checks": res["n_checks"] if res else 0, "solver_s": (res or {}).get("solver_s"),
+                  "duration_s": (res or {}).get("duration_s"), "file": os.path.relpath(hfile, VERIF),
+                  "harness_asserts": (res or {}).get("harness_asserts", 0)}
+            obligations.append(ob)
+            if verdict == "refuted":
+                kn = [k for k in known if k["harness"] == name]
+                fails = [f for f in res["failed"] if f["category"] not in UNDECIDED_CATEGORIES + IGNORED_CATEGORIES]
+                if kn and all(any(k["check"] in (f["description"] or "") for k in kn) for f in fails):
+                    ob["verdict"] = "known-finding"
+                    known_hits.append((name, kn[0]["what"]))
+                else:
+                    violations.append(({"extract_unit": unit}, name, res["id"], hfile, res, reason))
             elif verdict in ("undecided", "canary-passed"):
                 undecided.append("[%s] %s" % (name, reason))
 
